@@ -44,6 +44,7 @@ type runState struct {
 	samples    []any
 	perSub     map[string]map[string]int64
 	crashes    map[string]int
+	sigCount   map[string]int // violations per signature (all of them; only the first witnesses are stored)
 }
 
 func envInt(name string, def int64) int64 {
@@ -70,7 +71,7 @@ func RunMain(id, tier string) int {
 	}
 	t0 := time.Now()
 	rs := &runState{p: p, tier: tier, seed: envInt("VERIF_SEED", 1), jobs: int(envInt("VERIF_JOBS", int64(runtime.NumCPU()))),
-		keys: map[uint64]struct{}{}, counters: map[string]int64{}, perSub: map[string]map[string]int64{}, crashes: map[string]int{}}
+		keys: map[uint64]struct{}{}, counters: map[string]int64{}, perSub: map[string]map[string]int64{}, crashes: map[string]int{}, sigCount: map[string]int{}}
 	rs.runDir = os.Getenv("VH_RUN")
 	if rs.runDir == "" {
 		d, err := os.MkdirTemp("", "vh-run-")
@@ -422,7 +423,7 @@ func (rs *runState) runChild(sub *Sub, race bool, start, end, w int) (next int) 
 		if risk != "" {
 			cause += ":" + risk
 		}
-		rs.violations = append(rs.violations, Violation{Sig: sub.Name + ":" + cause, Sub: sub.Name, Idx: idx,
+		rs.addViolation(Violation{Sig: sub.Name + ":" + cause, Sub: sub.Name, Idx: idx,
 			What:   fmt.Sprintf("child process died (%s, exit %d) while running case %d", class, exit, idx),
 			Detail: map[string]any{"stderr": excerpt, "risk": risk, "race_twin": race}})
 	} else {
@@ -432,13 +433,19 @@ func (rs *runState) runChild(sub *Sub, race bool, start, end, w int) (next int) 
 	return idx + 1
 }
 
+// addViolation counts a violation under its signature and stores the first three witnesses of each signature (caller holds rs.mu).
+func (rs *runState) addViolation(v Violation) {
+	rs.sigCount[v.Sig]++
+	if rs.sigCount[v.Sig] <= 3 {
+		rs.violations = append(rs.violations, v)
+	}
+}
+
 func (rs *runState) absorb(sub *Sub, race bool, rec *endRecord) {
 	rs.mu.Lock()
 	defer rs.mu.Unlock()
 	for _, v := range rec.Violations {
-		if len(rs.violations) < 2000 {
-			rs.violations = append(rs.violations, v)
-		}
+		rs.addViolation(v)
 	}
 	for _, k := range rec.Keys {
 		rs.keys[k] = struct{}{}
@@ -492,15 +499,19 @@ func (rs *runState) report(wall float64, partial bool) int {
 	observedKnown := map[string]int{}
 	for _, sig := range sigs {
 		vs := bySig[sig]
+		n := rs.sigCount[vs[0].Sig]
+		if n < len(vs) {
+			n = len(vs)
+		}
 		if k := kf.match(sig); k != nil {
-			observedKnown[k.Signature] += len(vs)
+			observedKnown[k.Signature] += n
 			continue
 		}
-		unlisted += len(vs)
+		unlisted += n
 		// one replay file per signature (first witness), plus a count
 		v := vs[0]
-		path := rs.writeReplay(sig, v, len(vs))
-		fmt.Printf("VIOLATION property=%s replay=%s signature=%s count=%d what=%s\n", id, path, sig, len(vs), oneLine(v.What))
+		path := rs.writeReplay(sig, v, n)
+		fmt.Printf("VIOLATION property=%s replay=%s signature=%s count=%d what=%s\n", id, path, sig, n, oneLine(v.What))
 	}
 	for _, k := range kf.findings {
 		obs := "no"
